@@ -115,14 +115,42 @@ def firstHit (es : List (Bytes × Bytes)) : List Bytes → Option Bytes
     | some p => some p
     | none => firstHit es ks
 
-/-- `stripvdomprepend(recip)` -/
-def stripvdom (es : List (Bytes × Bytes)) (recip : Bytes) : Bytes :=
+/-- `constmap()` on a map built without `flagcolon` (control/locals): the whole line is the key -/
+def cmMember : List Bytes → Bytes → Bool
+  | [], _ => false
+  | l :: r, key => lower l == lower key || cmMember r key
+
+/-- the two tables `stripvdomprepend` consults: `maplocals` and `mapvdoms` -/
+structure Tables where
+  locals : List Bytes
+  vdoms : List (Bytes × Bytes)
+
+/-- the virtual-user loop `for (i = 0;recip[i];++i) if (recip[i] == '-') …`: `pre` = `recip[0..i)`,
+the list = `recip + i`.  The first dash whose remainder has an entry with exactly `pre` as its
+(non-empty) prepend decides. -/
+def userStripGo (es : List (Bytes × Bytes)) : Bytes → Bytes → Option Bytes
+  | _, [] => none
+  | pre, c :: r =>
+    if c = DASH then
+      match cmLookup es r with
+      | some p => if !p.isEmpty && p == pre then some r else userStripGo es (pre ++ [c]) r
+      | none => userStripGo es (pre ++ [c]) r
+    else userStripGo es (pre ++ [c]) r
+
+/-- `stripvdomprepend(recip)`: nothing without '@'; nothing for a domain in `locals`; then the
+virtual-user loop; then the domain loop -/
+def stripvdom (t : Tables) (recip : Bytes) : Bytes :=
   match domainOf recip with
   | none => recip
-  | some d => match firstHit es (suffixKeys d) with
-    | none => recip
-    | some p =>
-      if !p.isEmpty && (p ++ [DASH]).isPrefixOf recip then recip.drop (p.length + 1) else recip
+  | some d =>
+    if cmMember t.locals d then recip else
+    match userStripGo t.vdoms [] recip with
+    | some r => r
+    | none =>
+      match firstHit t.vdoms (suffixKeys d) with
+      | none => recip
+      | some p =>
+        if !p.isEmpty && (p ++ [DASH]).isPrefixOf recip then recip.drop (p.length + 1) else recip
 
 /-! ### addbounce() -/
 
@@ -141,8 +169,25 @@ def scanFrom : Bool → Bytes → Bytes
   | _, [c] => [c]
   | p, c :: d :: t => (if p && c == LF then SLASH else c) :: scanFrom (c == LF) (d :: t)
 
+/-! The same loop transcribed literally (in-place writes, positions `len-2` down to `1`);
+`Lemmas.Bounce.scanInPlace_eq` proves it equal to `scanFrom false`, which is what the model and the
+compiled driver use (the in-place form is quadratic on lists). -/
+
+/-- one iteration: `if (s[pos] == '\n') if (s[pos - 1] == '\n') s[pos] = '/';` -/
+def scanAt (s : Bytes) (pos : Nat) : Bytes :=
+  if s[pos]? = some LF ∧ s[pos - 1]? = some LF then s.set pos SLASH else s
+
+/-- positions `n`, `n-1`, …, `1`, in this order -/
+def scanDown : Nat → Bytes → Bytes
+  | 0, s => s
+  | n + 1, s => scanDown n (scanAt s (n + 1))
+
+/-- `for (pos = len - 2;pos > 0;--pos) …` -/
+def scanInPlace (s : Bytes) : Bytes := scanDown (s.length - 2) s
+
+
 /-- the bytes `addbounce(id,recip,report)` appends to `bounce/<id>` -/
-def addbounceText (es : List (Bytes × Bytes)) (recip report : Bytes) : Bytes :=
+def addbounceText (es : Tables) (recip report : Bytes) : Bytes :=
   let t1 := (LANGLE :: stripvdom es recip).map lf2us        -- "<" + stripped recipient, LF -> '_'
   let t2 := t1 ++ [RANGLE, COLON, LF]                       -- ">:\n"
   let t3 := t2 ++ report
@@ -150,7 +195,7 @@ def addbounceText (es : List (Bytes × Bytes)) (recip report : Bytes) : Bytes :=
   scanFrom false t4 ++ [LF]
 
 /-- the whole `bounce/<id>` file after the listed failures, in order -/
-def bounceFile (es : List (Bytes × Bytes)) : List (Bytes × Bytes) → Bytes
+def bounceFile (es : Tables) : List (Bytes × Bytes) → Bytes
   | [] => []
   | (r, t) :: fs => addbounceText es r t ++ bounceFile es fs
 
@@ -181,6 +226,7 @@ structure Controls where
   doublebounceto : Option Bytes
   doublebouncehost : Option Bytes
   virtualdomains : Option Bytes
+  locals : Option Bytes := none
 
 structure Cfg where
   bouncefrom : Bytes
@@ -188,6 +234,11 @@ structure Cfg where
   /-- `doublebounceto` "@" `doublebouncehost`, as assembled by getcontrols() -/
   doublebounceto : Bytes
   vdoms : List (Bytes × Bytes)
+  /-- control/locals (`control_readfile` with `flagme`: the file's lines, else the single line `me`) -/
+  locals : List Bytes := []
+
+/-- the tables `stripvdomprepend` sees under this configuration -/
+def Cfg.tables (c : Cfg) : Tables := { locals := c.locals, vdoms := c.vdoms }
 
 def getcontrols (c : Controls) : Cfg :=
   let dbhost := rldef c.doublebouncehost c.me true (str "doublebouncehost")
@@ -196,7 +247,11 @@ def getcontrols (c : Controls) : Cfg :=
     doublebounceto := rldef c.doublebounceto c.me false (str "postmaster") ++ [AT] ++ dbhost
     vdoms := match c.virtualdomains with
       | none => []
-      | some f => cmEntries (readfile f) }
+      | some f => cmEntries (readfile f)
+    locals := match c.locals, c.me with
+      | some f, _ => readfile f
+      | none, some m => [readline m]
+      | none, none => [] }
 
 /-! ### injectbounce() -/
 
